@@ -21,7 +21,7 @@ LEVEL = "proof"
 ASSUMPTIONS = [
     "C19: the reference interpreter coq/Cli/Fmt.v is a reading of doc/man/jose-fmt.1.adoc; where the manual is silent it allows several outcomes (list in coq/Cli/C19_NOTES.md): -X not followed by an assertion, inverted assertion on a missing TOP, -M beyond the bottom, -Q element order, -u line terminator, -Y on a scalar, -d of a missing name, -t longer than the array / discarding more than there are, -i with a negative position, non-canonical base64url for -y, partial effect of a failing -o/-f/-u on its target file",
     "C19: values are references (store of nodes), as the manual's own examples require; serialization is jansson's compact form with sorted keys (coq/Base/JsonDump.v); object iteration order for -f is insertion order",
-    "C19: exit statuses are 8 bit: programs are kept to at most 255 options (premise of C19_exit_index); stdout is a pipe, tty newline behaviour is not modelled; -j FILE is exercised with one fixed input file, -j - (stdin) not at all; malformed option arguments (not JSON / not a number) are usage errors (exit 255 before anything runs) and kept apart",
+    "C19: exit statuses are 8 bit: programs are kept to at most 255 options (premise of C19_exit_index); stdout is a pipe, tty newline behaviour is not modelled; -j FILE and -j - (standard input) are exercised with documents of every JSON type; malformed option arguments (not JSON / not a number) are usage errors (exit 255 before anything runs) and kept apart",
     "C19: programs are separate argv words (-g a), getopt bundling (-Og) is not exercised",
 ]
 
@@ -135,6 +135,16 @@ def gen(tier, seed):
             for ed in edits:
                 add([("-j", v), ("-c",), ("-g", k_)] + ed + OBSERVER, "copy independence")
                 add([("-j", v), ("-c",), ("-M", "1"), ("-g", k_)] + ed + OBSERVER, "copy independence")
+    # -j FILE and -j - (standard input) push ANY JSON value, exactly as the inline constant does: scalars of every type,
+    # containers, several documents read from one stream by successive options
+    docs = ["7", '"foo"', "true", "false", "null", "2.5", "-3", '""', "[1,2]", '{"a":1}', "[]", "{}"]
+    for dtxt in docs:
+        for src in ("@J:", "@-:"):
+            add([("-j", src + dtxt), ("-o", "-")], "-j from a file / standard input")
+            add([("-j", '{"kty":"oct"}'), ("-j", src + dtxt), ("-s", "alg"), ("-U",), ("-o", "-")], "-j from a file / standard input")
+            add([("-j", src + dtxt), ("-S",), ("-I",), ("-o", "-")], "-j from a file / standard input")
+    add([("-j", "@-:1"), ("-j", "@-:[2]"), ("-Q",), ("-o", "-")], "-j from a file / standard input")
+    add([("-j", '@-:"a"'), ("-j", "@-:true"), ("-j", '@-:{"b":null}'), ("-Q",), ("-o", "-")], "-j from a file / standard input")
     for u in USAGE:
         add(u, "usage errors")
     # the manual's own examples (with constants for $jwe etc.)
@@ -212,10 +222,28 @@ class Bin:
     def run(self, idx, prog):
         """-> canonical result 'status:stdouthex[:@F=hex]' or 'CRASH ...'"""
         fpath = os.path.join(self.tmp, "o%d" % idx)
-        argv = [fpath if w == "@F" else self.jfile if w == "@J" else w for w in flat(prog)]
+        argv, stdin_text, extra_files = [], None, []
+        for w in flat(prog):
+            if w == "@F":
+                argv.append(fpath)
+            elif w == "@J":
+                argv.append(self.jfile)
+            elif w.startswith("@J:"):          # -j FILE with this content
+                fp = os.path.join(self.tmp, "j%d_%d" % (idx, len(extra_files)))
+                with open(fp, "w") as f:
+                    f.write(w[3:])
+                extra_files.append(fp)
+                argv.append(fp)
+            elif w.startswith("@-:"):          # -j - : the document comes from standard input (several: one after the other)
+                stdin_text = (stdin_text + "\n" if stdin_text else "") + w[3:]
+                argv.append("-")
+            else:
+                argv.append(w)
         try:
-            p = subprocess.run([self.exe, "fmt"] + argv, stdin=subprocess.DEVNULL, stdout=subprocess.PIPE,
-                               stderr=subprocess.PIPE, timeout=10, env=_env())
+            p = subprocess.run([self.exe, "fmt"] + argv, stdout=subprocess.PIPE, stderr=subprocess.PIPE, timeout=10, env=_env(),
+                               **({"stdin": subprocess.DEVNULL} if stdin_text is None else {"input": stdin_text.encode()}))
+            for fp in extra_files:
+                self._rm(fp)
         except subprocess.TimeoutExpired:
             self._rm(fpath)
             return "CRASH TIMEOUT"
@@ -243,7 +271,7 @@ class Bin:
 
 
 def model_line(prog):
-    return "fmt\t" + "\t".join(JFILE_TEXT if w == "@J" else w for w in flat(prog)) if prog else "fmt"
+    return "fmt\t" + "\t".join(JFILE_TEXT if w == "@J" else w[3:] if w.startswith(("@J:", "@-:")) else w for w in flat(prog)) if prog else "fmt"
 
 
 def model_all(driver, progs):
